@@ -72,6 +72,10 @@ let () =
            Printf.printf "O %s\n" (hex_of_z (optimal_block_size (a 1) (a 2) (a 3) (a 4)))
        | "P" -> (* P n bsMax hs chk s0 cap sizes splits *)
            Printf.printf "P %s\n" (res_str (replay_frame (zlist f.(7)) (zlist f.(8)) (a 1) (a 2) (a 3) (f.(4) = "1") (a 5) (a 6)))
+       | "S" -> (* S n bs hs chk *)
+           Printf.printf "S %s\n" (hex_of_z (suff_capacity (a 1) (a 2) (a 3) (f.(4) = "1")))
+       | "K" -> (* K maxBlockSize windowLog pledgedSrcSize *)
+           Printf.printf "K %s\n" (hex_of_z (cctx_block_size (a 1) (a 2) (a 3)))
        | "M" -> (* M originalSize blockSize *)
            Printf.printf "M %s\n" (hex_of_z (dECOMPRESSION_MARGIN (a 1) (a 2)))
        | "I" -> (* I hexbytes *)
